@@ -46,3 +46,36 @@ C['peptacular.mass_calc:glycan_mass'] = dict(
     invariants={0: [('partial-sum', 'm == GSUM(formula, monoisotopic, _seen0)'),
                     ('seen-known', 'forall(lambda k=str: implies(k in _seen0, known(k)))')]},
 )
+
+# ---------------------------------------------------------------- the composition of a glycan: the count-weighted sum of the monosaccharides' compositions
+# (for ANY weighting AW of the element symbols, as in contracts/seqcomp.py: TOT(d) = sum over the keys of d[k] * AW(k))
+ALIASES['Comp'] = 'Dict[str,real]'
+FUNCS.update({'AW': (['str'], 'real'), 'WSUM': (['Comp', 'Set[str]'], 'real'), 'TOT': (['Comp'], 'real'), 'GCS': (['Counts', 'Set[str]'], 'real')})
+AXIOMS += [
+    ('WSUM-empty', 'forall(lambda d=Comp: WSUM(d, set()) == 0)'),
+    ('WSUM-insert', 'forall(lambda d=Comp, S=Set[str], k=str: implies(not (k in S), WSUM(d, set_add(S, k)) == WSUM(d, S) + AW(k) * d[k]))'),
+    ('TOT-def', 'forall(lambda d=Comp: TOT(d) == WSUM(d, set(d)))'),
+    ('A-FINSUM-UPDATE', 'forall(lambda d=Comp, k=str, x=real: TOT(dict_set(d, k, x)) == TOT(d) + (x - d.get(k, 0)) * AW(k))'),
+    ('GCS-empty', 'forall(lambda d=Counts: GCS(d, set()) == 0)'),
+    ('GCS-insert', 'forall(lambda d=Counts, S=Set[str], k=str: implies(not (k in S), GCS(d, set_add(S, k)) == GCS(d, S) + '
+                   'TOT(parse_chem_formula(some(mono_of(k).composition))) * d[k]))'),
+]
+C['peptacular.chem.chem_util:parse_chem_formula'] = dict(
+    params=dict(formula='str'), returns='Comp', pure=True, trusted=True, external=True,
+    bounded_by='formula text -> composition: tokenizer proved in contracts/chemmass.py (C15), accumulation bounded/C15.py', ensures=[])
+C['peptacular.mods.mod_db_setup:_glycan_comp'] = dict(
+    params=dict(glycan='Counts', sep='str'), returns='Comp', pure=True, locals=dict(counts='Comp'),
+    axioms=['WSUM-empty', 'WSUM-insert', 'TOT-def', 'A-FINSUM-UPDATE', 'GCS-empty', 'GCS-insert'],
+    requires=[('every-table-entry-has-a-composition',
+               'forall(lambda k=str: implies(k in MONOSACCHARIDES_DB.name_map, MONOSACCHARIDES_DB.name_map[k].composition is not None)) and '
+               'forall(lambda k=str: implies(k in MONOSACCHARIDES_DB.synonym_map, MONOSACCHARIDES_DB.synonym_map[k].composition is not None))')],
+    raises={'InvalidGlycanFormulaError': 'exists(lambda k=str: (k in glycan) and not known(k))'},
+    ensures=[('count-weighted-sum-of-the-monosaccharide-compositions', 'TOT(result) == GCS(glycan, set(glycan))')],
+    invariants={0: [('monosaccharides-so-far', 'TOT(counts) == GCS(glycan, _seen0)'),
+                    ('seen-known', 'forall(lambda k=str: implies(k in _seen0, known(k)))')],
+                1: [('elements-so-far', 'TOT(counts) == TOT(counts_at1) + WSUM(chem_formula, _seen1) * count')]},
+)
+C['peptacular.glycan:glycan_comp'] = dict(
+    params=dict(glycan='Counts'), returns='Comp', pure=True, raises={'ValueError': None}, axioms=[],
+    requires=C['peptacular.mods.mod_db_setup:_glycan_comp']['requires'],
+    ensures=[('the-helper', "result == _glycan_comp(glycan, '')")])
